@@ -98,7 +98,9 @@ impl Monitor for C04 {
                     .unwrap_or(0);
                 if rebond > 0 {
                     out.count("c04.index_updates_rebonding");
-                    if post.pool_s != pre.pool_s + rebond {
+                    // "raises the stSei rate": the re-bonded coins must end up backing stSei, i.e. the pool grows (by how
+                    // much exactly is C19's clause) and the rate does not fall (judged above)
+                    if post.pool_s <= pre.pool_s {
                         out.violation(P, "rebond_raises_stsei_rate", format!("{} usei were re-bonded but the stSei pool went {} -> {} (bSei pool {} -> {})", rebond, pre.pool_s, post.pool_s, pre.pool_b, post.pool_b));
                     }
                 }
